@@ -15,10 +15,12 @@ def new_reader():
 
 
 def feed(chunks, reader=None):
+    from mc.hdlcx import take
+
     r = reader or new_reader()
     out = []
     for c in chunks:
-        out += r.read(c)
+        out += take(r.read(c))
     return out, r
 
 
